@@ -167,7 +167,7 @@ def collect(src):
     return structs, impls, aliases, enums
 
 
-def make(crates=("chia-protocol",), limit=None, hw=True, part=None, parts=1, out_name="streamable_derived"):
+def make(crates=("chia-protocol",), limit=None, hw=True, part=None, parts=1, out_name="streamable_derived", complete=False):
     """part: None = everything in one file; 0..parts-1 = that slice of the derived impls (round-robin over the
     sorted names); "hw" = only the hand-written codecs.  Types whose impl lives in another slice are declared
     opaque with the (there proved) trait contract assumed."""
@@ -178,7 +178,11 @@ def make(crates=("chia-protocol",), limit=None, hw=True, part=None, parts=1, out
     L("// GENERATED by vf/gen_derived.py from rustc -Zunpretty=expanded; do not edit")
     L("use vstd::prelude::*;")
     L("verus! {")
-    core = open(os.path.join(VERIF, "contracts", "streamable_core.vrs")).read()
+    # complete=True: the trait contract of contracts/streamable_complete.vrs (canonicity PLUS decoder completeness); every
+    # derived parse then gets the field-by-field prefix chain as its proof (hand-written codecs stay opaque there)
+    if complete:
+        hw = False
+    core = open(os.path.join(VERIF, "contracts", "streamable_complete.vrs" if complete else "streamable_core.vrs")).read()
     body = core.split("verus! {", 1)[1].rsplit("} // verus!", 1)[0]
     L(body)
     L("//@gsub chia_traits::chia_error::Result =>> Result")
@@ -270,6 +274,20 @@ def make(crates=("chia-protocol",), limit=None, hw=True, part=None, parts=1, out
                 L("//@extract %s %simpl:%s::fn:%s" % (vsrc, pre, hdr, fn))
                 if emitted % 10 != 0:
                     L("//@no_canary")   # vacuity canaries on every 10th struct (same trait contract everywhere)
+                if complete and fn == "parse" and len(ftypes) >= 2:
+                    # completeness: if x's encoding starts at the cursor, so does the encoding of every prefix of its fields
+                    encs = ["b.take(p)"]
+                    for f, _ in ftypes:
+                        encs.append("x.%s.enc_onto(%s)" % (f, encs[-1]))
+                    L("//@body_start")
+                    L("        proof {")
+                    L("            let b = input.buf(); let p = input.pos() as int;")
+                    L("            assert forall|x: %s| #![trigger x.enc_onto(b.take(p))] x.wf() && starts_seq(x.enc_onto(b.take(p)), b, p) implies" % name)
+                    L("                " + " && ".join("starts_seq(%s, b, p)" % encs[k] for k in range(1, len(ftypes))) + " by {")
+                    for k in range(len(ftypes) - 1, 0, -1):
+                        L("                lemma_prefix_chain(&x.%s, %s, b);" % (ftypes[k][0], encs[k]))
+                    L("            }")
+                    L("        }")
                 L("//@end")
             L("}")
             emitted += 1
